@@ -948,7 +948,9 @@ impl Connection {
         self.app_limited = buf.is_empty() && !congestion_blocked;
 
         // Send MTU probe if necessary
-        if buf.is_empty() && self.state.is_established() {
+        // (never on a path that is not validated yet: probes are not subject to the
+        // anti-amplification limit)
+        if buf.is_empty() && self.state.is_established() && self.path.validated {
             let space_id = SpaceId::Data;
             let probe_size = self
                 .path
